@@ -115,10 +115,17 @@ def lenient(mg, reg, arr_dims, axes):
     return out
 
 
-def arr_of(mg, dims, seed):
+ARR_DTYPES = (np.float64, np.int32, np.bool_, np.float32, np.int16)
+
+
+def arr_of(mg, dims, seed, dt=0):
+    """the array the metric is asked for; its dtype must not matter for the metric that is returned"""
     shape = tuple(2 if d == "t" else mg.size(d) for d in dims)
     a = ((np.arange(int(np.prod(shape))) * 5 + seed) % 13).astype(float).reshape(shape) + 1
-    return xr.DataArray(a, dims=dims, name="q")
+    dtype = ARR_DTYPES[dt % len(ARR_DTYPES)]
+    if dtype is np.bool_:
+        a = a % 2 > 0
+    return xr.DataArray(a.astype(dtype), dims=dims, name="q")
 
 
 TWINS = {"A": {0: 7, 3: 8}}  # pool index -> index of another variable for the same slot
@@ -134,8 +141,14 @@ def overwritten(gname, order, g=None, reg=None):
             if g is None:
                 g, reg = make_grid(gname, order)
             v = c["vars"][new]
-            g.set_metrics(v.axes, v.name, overwrite=True)
+            names = [v.name]
             reg2 = {k: [c["vars"][new] if x is c["vars"][old] else x for x in vs] for k, vs in reg.items()}
+            # in the same call a variable for a slot that is still empty (same axes, another position), after the overwriting one
+            extra = {0: 1, 3: 2}.get(old)
+            if extra is not None and extra not in order:
+                names.append(c["vars"][extra].name)
+                reg2[frozenset(v.axes)] = reg2[frozenset(v.axes)] + [c["vars"][extra]]
+            g.set_metrics(v.axes, names if len(names) > 1 else names[0], overwrite=True)
             return g, reg2, [old, new]
     return None
 
@@ -162,7 +175,7 @@ def check_get_metric(rec, gname, order, ai, ri, seed, g=None, reg=None, swap=Non
                         pass
             g, reg, _ = overwritten(gname, order, g, reg)
     axes = (req,) if isinstance(req, str) else tuple(req)
-    arr = arr_of(mg, dims, seed)
+    arr = arr_of(mg, dims, seed, dt=ai + ri)
     kind, cands = M.admissible(mg, reg, [d for d in dims if d != "t"], axes)
     ncand = len(cands) if cands else 0
     rec.case((gname, tuple(order), ai, ri, tuple(swap or ())), kind == "set" and (ncand > 1 or any(w for _, w, _ in cands) or "*" in cands[0][2]),
